@@ -353,6 +353,9 @@ def remembered_length_gate(ctx, P):
         b = core.B(r)
         writes = set(i for i, t in b.calls() if WRITES.search(t['f'].get('fn', '') or ''))
         rets = set(b.returns())
+        # a branch that REFUSES to write (error exit) is not a gate: only a successful return without any write counts
+        from rules.common import err_exit_blocks as _eeb
+        writes |= set(_eeb(b))
         for i, t in b.switches():
             og = b.switch_origins(i)
             flds = set(x for x in og if x.startswith('field:' + T + '.'))
